@@ -537,8 +537,40 @@ func (g *gen) block1(depth int, inListItemFirst bool, afterPara bool) *blk {
 	}
 }
 
+// htmlSamples2: HTML blocks of every start condition. hk is the condition's number in
+// section 4.6 of the spec: 1-5 end on the line that holds their end condition (all samples
+// hold it in their last line), 6 and 7 end before a blank line, and 7 cannot interrupt a
+// paragraph. Every line is verbatim content.
+var htmlSamples2 = []struct {
+	hk    int
+	lines []string
+}{
+	{1, []string{"<script>", "let x = '*a*' < 1;", "", "</script>"}},
+	{1, []string{"<style>p{color:red}</style> *same line*"}},
+	{1, []string{"<TEXTAREA rows=2>", "", "  keep", "</textarea> tail"}},
+	{2, []string{"<!-- one line --> *tail*"}},
+	{3, []string{"<?x", "", "?> tail"}},
+	{4, []string{"<!DOCTYPE html>"}},
+	{4, []string{"<!X", "", "y> tail"}},
+	{5, []string{"<![CDATA[", "*x*", "", "]]> tail"}},
+	{6, []string{"</div>", "*text*"}},
+	{6, []string{"<HR/>"}},
+	{6, []string{"<p", "class=c>", "**text**"}},
+	{6, []string{"<h2>t</h2> *x*"}},
+	{7, []string{"<custom-el a=\"b\" c>", "*text*"}},
+	{7, []string{"</custom-el>"}},
+	{7, []string{"<a href=\"x\">", "*text*", "</a>"}},
+	{7, []string{"<em/>  "}},
+}
+
 func (g *gen) htmlBlock() *blk {
 	b := &blk{k: kHTML}
+	if !g.no("html:kinds") && g.r.Intn(2) == 0 {
+		smp := htmlSamples2[g.r.Intn(len(htmlSamples2))]
+		b.lines, b.level = smp.lines, smp.hk
+		g.f("html:kind" + strconv.Itoa(smp.hk))
+		return b
+	}
 	switch g.r.Intn(6) {
 	case 0:
 		b.lines = []string{"<div class=\"c\">", "*not emphasis*", "</div>"}
